@@ -13,6 +13,15 @@ EXTENDS Integers, Sequences, FiniteSets, Json, IOUtils, TLC
 \* what a node may be replaced by
 Replacements == {"null", "undef", "emptySame", "uint", "nint", "bstr", "tstr", "arrEmpty", "arr1", "mapEmpty", "map1", "bool", "float",
                  "tagged", "bstrWrapped", "arrWrapped", "indefSame", "hugeUint"}
+\* same-type boundary values: an integer node is replaced by each of these (decimal strings: most exceed TLC's
+\* integers), a byte / text string node by a string of each of these lengths
+LifeCycleEdges == {ToString(st * 4096 + d) : st \in 0..15, d \in {0, 255, 256}}
+IntBoundaries == LifeCycleEdges \cup
+                 {"1", "23", "24", "65535", "65536", "2147483647", "2147483648", "4294967295", "4294967296",
+                  "9223372036854775807", "9223372036854775808", "18446744073709551615",
+                  "-1", "-24", "-25", "-256", "-257", "-65536", "-65537", "-2147483648", "-2147483649", "-4294967296",
+                  "-9223372036854775808", "-9223372036854775809", "-18446744073709551616"}
+LenBoundaries == {0, 1, 7, 8, 9, 31, 32, 33, 34, 47, 48, 49, 63, 64, 65, 255, 256}
 \* structural edits of a container node (map / array / JSON object / JSON array)
 ContainerEdits == {"dropFirst", "dropLast", "dupFirst", "dupLast", "swapFirstTwo", "appendNull", "appendSelf", "nullElement"}
 \* JSON replacements
@@ -36,7 +45,8 @@ NestDepths == {16, 32, 33, 64, 1000, 10000}
 Nesting == {[kind |-> k, depth |-> d, place |-> p] : k \in NestKinds, d \in NestDepths, p \in {"top", "payload", "claimValue"}}
 BigSizes == {1000, 65535, 65536}
 Plan == [replacements |-> Replacements, containerEdits |-> ContainerEdits, jsonReplacements |-> JsonReplacements,
-         hostile |-> HostileOK, nesting |-> Nesting, bigSizes |-> BigSizes]
+         hostile |-> HostileOK, nesting |-> Nesting, bigSizes |-> BigSizes,
+         intBoundaries |-> IntBoundaries, lenBoundaries |-> LenBoundaries]
 \* the outcome alphabet: what a decode entry point (and every follow-up call) may do
 Outcomes == {"ok", "err"}
 ASSUME Cardinality(HostileOK) > 1000
